@@ -890,8 +890,9 @@ def run_property(pid, tier, seed):
     # every hit goes through implementation + model + known-finding classes like any generated case. Runs when the tie of a
     # structure stage is broken and nothing so far violates the property, and always in the thorough tier.
     structure = bool(set(spec['stages']) & {'trie', 'min', 'expr', 'final'}) and not spec.get('runner') and spec.get('special') != 'c09'
-    if structure and ((diff_cases and not unknown) or tier == 'thorough'):
-        after_break = bool(diff_cases and not unknown)
+    structure_broken = bool(set(stage_diffs) & {'trie', 'min', 'expr', 'final'})
+    if structure and ((diff_cases and not unknown and structure_broken) or tier == 'thorough'):
+        after_break = bool(diff_cases and not unknown and structure_broken)
         hcfgs = []
         budget = 25 if tier == 'quick' else 90
         for fl_ in ((['r'] if 'r' in spec['flags'] else []) + ([] if 'r' in spec.get('force', []) else [''])):
